@@ -11,7 +11,7 @@ files = set()
 for f in sorted(os.listdir(os.path.join(C.VERIF, "harness", "props"))):
     if f.startswith("C") and f.endswith(".py"):
         mod = importlib.import_module("props.%s" % f[:-3])
-        files.update(getattr(mod, "ANCHORS", []))
+        files.update(C.anchors_for(f[:-3], mod))
 out = {rel: C.ast_fingerprint(os.path.join(C.REPO, rel)) for rel in sorted(files)}
 json.dump(out, open(os.path.join(C.VERIF, "harness", "fingerprints.json"), "w"), indent=1)
 print(len(out), "files fingerprinted")
